@@ -7,7 +7,8 @@ one() {
   n=$1
   p=$(python3 -c "import json;print(json.load(open('seeded/$n/meta.json'))['property'])")
   needs=$(python3 -c "import json;print(json.load(open('seeded/$n/meta.json')).get('needs',''))")
-  out=$(/venv/bin/python tools/seedcheck.py $p seeded/$n $n --needs "$needs" 2>&1 | grep "^check\|NOT CONF\|DOES NOT" | cut -c1-160 | tr '\n' ' ')
+  checks=$(python3 -c "import json;print(','.join(sorted(json.load(open('seeded/$n/meta.json')).get('checks',{}))))")
+  out=$(/venv/bin/python tools/seedcheck.py $p seeded/$n $n --needs "$needs" --checks "$checks" 2>&1 | grep "^check\|NOT CONF\|DOES NOT" | cut -c1-160 | tr '\n' ' ')
   echo "$n: $out"
 }
 export -f one
